@@ -102,7 +102,9 @@ def xml_member(gen, name, t, v, ns, pref):
         return '<%s xsi:nil="true"/>' % q
     k = t['k']
     if k in ('prim', 'enum'):
-        return '%s<%s>%s</%s>' % (_between(), q, _noisy_text(xml_escape(lex(v, binary=(t.get('facets') or {}).get('encoding', 'base64')))), q)
+        # (xsi:nil="false" says what is the case anyway: the element is NOT nil)
+        notnil = ' xsi:nil="false"' if NOISE[0] == 'nilfalse' else ''
+        return '%s<%s%s>%s</%s>' % (_between(), q, notnil, _noisy_text(xml_escape(lex(v, binary=(t.get('facets') or {}).get('encoding', 'base64')))), q)
     if k == 'obj':
         xt = ''
         if isinstance(v, dict) and '__rt__' in v:
